@@ -70,15 +70,62 @@ func TestC17Exhaustive(t *testing.T) {
 		parts = append(parts, map[string]any{"bs": g.BS, "segments": g.Segs, "oversize": g.Over, "fit": g.Fit, "depth": g.Depth, "lists": n})
 	}
 	st.SetExhaustive("blocks_oplists", map[string]any{"alphabet": alpha, "geometries": parts, "lists": total, "shards": shards})
+
+	// second part: histories in which the buffer of the live allocator grows, and reopens on more / fewer bytes
+	gd := vstat.Pick(4, 5)
+	galpha := GrowAlphabet()
+	gtotal := int64(0)
+	gparts := []map[string]any{}
+	for _, g := range []exhGeo{{1, 1, 0, false, gd}, {1, 2, 0, true, gd}, {2, 1, 3, false, gd}, {1, 1, 0, false, gd}} {
+		pre := 0
+		if len(gparts) == 3 {
+			pre = -1 // the same, starting from headers preset to full
+		}
+		ops := make([]Op, 0, g.Depth)
+		n := enum.Lists(len(galpha), g.Depth, shard, shards, func(idx []int) {
+			ops = ops[:0]
+			for _, i := range idx {
+				ops = append(ops, galpha[i])
+			}
+			c := Case{BS: g.BS, Segs: g.Segs, Over: g.Over, Fit: g.Fit, Backend: "inmem", Pre: pre, Ops: ops}
+			info, v := Run(c)
+			if v != nil || info.NonTrivial() {
+				c.Ops = append([]Op(nil), ops...)
+			}
+			if v != nil {
+				st.Report(t, "TestC17Exhaustive", c, v)
+			}
+			record(c, info)
+		})
+		gtotal += n
+		gparts = append(gparts, map[string]any{"bs": g.BS, "segments": g.Segs, "oversize": g.Over, "fit": g.Fit, "preset_full": pre != 0, "depth": g.Depth, "lists": n})
+	}
+	st.SetExhaustive("blocks_oplists_grow", map[string]any{"alphabet": galpha, "geometries": gparts, "lists": gtotal, "shards": shards})
 }
 
 // ---------------------------------------------------------------------------------------------
 
-func opGen(allowReopen bool) *rapid.Generator[Op] {
+// opGen: reopen 0 = no reopen and no Grow (large block sizes), 1 = the usual share, 2 = the mix of the mmap unit (more
+// Grow, more reopens, and most of those with another mapping size than the file has).
+func opGen(reopen int) *rapid.Generator[Op] {
+	allowReopen := reopen > 0
 	return rapid.Custom(func(t *rapid.T) Op {
 		k := rapid.IntRange(0, 99).Draw(t, "kind")
 		switch {
+		case k < 22:
+			return Op{K: "a"}
+		case k < 26:
+			if reopen == 2 {
+				return Op{K: "g", N: rapid.IntRange(0, 15).Draw(t, "n")}
+			}
+			return Op{K: "a"}
 		case k < 28:
+			if reopen == 2 {
+				return reopenOp(t, true)
+			}
+			if allowReopen {
+				return Op{K: "g", N: rapid.IntRange(0, 15).Draw(t, "n")}
+			}
 			return Op{K: "a"}
 		case k < 36:
 			return Op{K: "fill", N: rapid.OneOf(rapid.IntRange(0, 12), rapid.SampledFrom([]int{8, 16, 24, 64})).Draw(t, "n")}
@@ -100,11 +147,30 @@ func opGen(allowReopen bool) *rapid.Generator[Op] {
 			return Op{K: "bo", N: rapid.OneOf(rapid.IntRange(-9, 9), rapid.IntRange(-1<<40, 1<<40)).Draw(t, "n")}
 		default:
 			if allowReopen {
-				return Op{K: "r"}
+				return reopenOp(t, reopen == 2)
 			}
 			return Op{K: "a"}
 		}
 	})
+}
+
+// reopenOp: mostly on the same bytes; also with the explicit size, on the bytes followed by zero bytes, on a prefix.
+// sizes (the mmap unit): mostly with another mapping size than the file has.
+func reopenOp(t *rapid.T, sizes bool) Op {
+	same, explicit, larger := 12, 13, 17
+	if sizes {
+		same, explicit, larger = 5, 8, 16
+	}
+	switch j := rapid.IntRange(0, 19).Draw(t, "reopenKind"); {
+	case j < same:
+		return Op{K: "r"}
+	case j < explicit:
+		return Op{K: "r", N: -1}
+	case j < larger:
+		return Op{K: "r", N: 1 + rapid.IntRange(0, 7).Draw(t, "larger")}
+	default:
+		return Op{K: "r", N: -2 - rapid.IntRange(0, 5).Draw(t, "prefix")}
+	}
 }
 
 func genOver(t *rapid.T, bs int, fit bool) int {
@@ -172,9 +238,18 @@ func genCase(t *rapid.T) Case {
 	if bs >= 512 {
 		maxLen = 60
 	}
-	ops := genOps(t, opGen(bs < 512), maxLen)
+	reopen := 1
+	if bs >= 512 {
+		reopen = 0
+	}
+	ops := genOps(t, opGen(reopen), maxLen)
 	ops = withPrefill(t, ops)
-	return Case{BS: bs, Segs: segs, Over: over, Fit: fit, Backend: "inmem", Ops: ops}
+	c := Case{BS: bs, Segs: segs, Over: over, Fit: fit, Backend: "inmem", Ops: ops}
+	if rapid.IntRange(0, 15).Draw(t, "preset") == 0 {
+		// start from headers preset to full: here every probe of the small geometries runs on that state
+		c.Pre = rapid.SampledFrom([]int{-1, -1, 1, 2}).Draw(t, "pre")
+	}
+	return c
 }
 
 func TestC17Rapid(t *testing.T) {
@@ -209,7 +284,10 @@ func genMmapCase(t *rapid.T) Case {
 		c.Over = int(size % seg)
 		c.Fit = rapid.IntRange(0, 19).Draw(t, "fit") == 0
 	}
-	c.Ops = withPrefill(t, genOps(t, opGen(true), vstat.Pick(60, 120)))
+	c.Ops = withPrefill(t, genOps(t, opGen(2), vstat.Pick(60, 120)))
+	if rapid.IntRange(0, 15).Draw(t, "preset") == 0 {
+		c.Pre = -1
+	}
 	return c
 }
 
@@ -254,8 +332,10 @@ func genSparseCase(t *rapid.T) Case {
 	)
 	op := rapid.Custom(func(t *rapid.T) Op {
 		switch k := rapid.IntRange(0, 99).Draw(t, "kind"); {
-		case k < 25:
+		case k < 22:
 			return Op{K: "a"}
+		case k < 25:
+			return Op{K: "g", N: rapid.IntRange(0, 15).Draw(t, "n")}
 		case k < 33:
 			return Op{K: "fill", N: rapid.IntRange(0, 40).Draw(t, "n")}
 		case k < 63:
@@ -275,7 +355,7 @@ func genSparseCase(t *rapid.T) Case {
 		case k < 95:
 			return Op{K: "drain", N: rapid.IntRange(0, 20).Draw(t, "n")}
 		default:
-			return Op{K: "r"}
+			return reopenOp(t, false)
 		}
 	})
 	// a bulk arrange first, so that the high indexes are reached cheaply
@@ -328,6 +408,134 @@ func TestC17Sparse(t *testing.T) {
 			c := genSparseCase(t)
 			info, v := Run(c)
 			st.Report(t, "TestC17Sparse", c, v)
+			record(c, info)
+		})
+	})
+}
+
+// genHugeCase: geometries around 2^24 and 2^25 (thorough: 2^26) blocks - hundreds of page-multiple segments on the
+// sparse buffer, or millions of 9- and 34-byte segments in real memory - that start (nearly) full: the headers are
+// preset to what the allocator leaves in a full segment (Case.Pre), holes are made with FreeBlock, and the op list
+// works at the edge of exhaustion, grows the buffer and reopens it.
+func genHugeCase(t *rapid.T) Case {
+	c := Case{NoStamp: true}
+	k := rapid.SampledFrom(vstat.Pick([]int{24, 24, 24, 25}, []int{24, 24, 25, 25, 26})).Draw(t, "log2")
+	if rapid.IntRange(0, 9).Draw(t, "dense") == 0 {
+		c.Backend, k = "inmem", 24
+		c.BS = rapid.SampledFrom([]int{1, 1, 2}).Draw(t, "bs")
+	} else {
+		c.Backend = "sparse"
+		c.BS = rapid.SampledFrom(sparseBS).Draw(t, "bs")
+	}
+	per := c.BS * 8
+	thr := 1 << k
+	c.Segs = (thr+per-1)/per + rapid.SampledFrom([]int{-1, 0, 1, 1, 1, 2, 3}).Draw(t, "segsDelta")
+	c.Fit = rapid.Bool().Draw(t, "fit")
+	if !c.Fit {
+		c.Over = rapid.SampledFrom([]int{0, 0, 1, c.BS, 5 * c.BS}).Draw(t, "over")
+	}
+	count := c.Segs * per
+	switch rapid.IntRange(0, 9).Draw(t, "preClass") {
+	case 0:
+		c.Pre = c.Segs - 1 // the last segment is empty
+	case 1:
+		c.Pre = c.Segs - 2
+	default:
+		c.Pre = -1
+	}
+	idxGen := rapid.OneOf(
+		rapid.Custom(func(t *rapid.T) int {
+			m := rapid.SampledFrom([]int{0, 8, per, 1 << 24, 1 << 25, thr, count / 2, count - per, count - 1}).Draw(t, "mark")
+			return max(0, m+rapid.IntRange(-3, 3).Draw(t, "d"))
+		}),
+		rapid.IntRange(0, count-1),
+	)
+	op := rapid.Custom(func(t *rapid.T) Op {
+		switch k := rapid.IntRange(0, 99).Draw(t, "kind"); {
+		case k < 35:
+			return Op{K: "a"}
+		case k < 40:
+			return Op{K: "fill", N: rapid.IntRange(0, 6).Draw(t, "n")}
+		case k < 45:
+			return Op{K: "fill", N: rapid.IntRange(-3, -1).Draw(t, "n")}
+		case k < 65:
+			return Op{K: "fi", N: idxGen.Draw(t, "idx")}
+		case k < 71:
+			return Op{K: "ff", N: idxGen.Draw(t, "idx")}
+		case k < 73:
+			return Op{K: "fo", N: rapid.IntRange(0, 9).Draw(t, "n")}
+		case k < 75:
+			return Op{K: "fn", N: rapid.IntRange(0, 9).Draw(t, "n")}
+		case k < 83:
+			return Op{K: "b", N: idxGen.Draw(t, "idx")}
+		case k < 85:
+			return Op{K: "bo", N: rapid.IntRange(-3, 3).Draw(t, "n")}
+		case k < 87:
+			return Op{K: "drain", N: rapid.IntRange(0, 5).Draw(t, "n")}
+		case k < 92:
+			return Op{K: "g", N: rapid.IntRange(0, 15).Draw(t, "n")}
+		default:
+			return reopenOp(t, false)
+		}
+	})
+	holes := rapid.SampledFrom([]int{0, 1, 1, 1, 1, 1, 2, 2, 3, 5}).Draw(t, "holes")
+	for i := 0; i < holes; i++ {
+		c.Ops = append(c.Ops, Op{K: "fi", N: idxGen.Draw(t, "hole")})
+	}
+	c.Ops = append(c.Ops, rapid.SliceOfN(op, 0, 30).Draw(t, "ops")...)
+	return c
+}
+
+// TestC17Huge: more than 2^24 blocks (see genHugeCase). Shard 0 also runs a grid: for every sparse block size and
+// both thresholds, the last free block of a full allocator is handed out, ErrExhausted follows, blocks freed at
+// the ends and at the threshold come back, across a reopen, a reopen that adds a segment and a Grow.
+func TestC17Huge(t *testing.T) {
+	st := vstat.For(prop)
+	if shard, _ := vstat.Shard(); shard == 0 {
+		n := 0
+		reported := map[string]bool{}
+		do := func(c Case) {
+			info, v := Run(c)
+			if v != nil && !reported[v.Sig] {
+				reported[v.Sig] = true
+				name := "TestC17Huge." + strings.TrimPrefix(v.Sig, "blocks:")
+				t.Run(name, func(t *testing.T) { st.Report(t, name, c, v) })
+			}
+			record(c, info)
+			n++
+		}
+		logs := vstat.Pick([]int{24, 25}, []int{24, 25, 26})
+		for _, bs := range sparseBS {
+			for _, k := range logs {
+				per, thr := bs*8, 1<<k
+				segs := thr/per + 1
+				count := segs * per
+				do(Case{BS: bs, Segs: segs, Fit: true, Backend: "sparse", NoStamp: true, Pre: -1, Ops: []Op{
+					{K: "a"}, {K: "fi", N: count - 1}, {K: "a"}, {K: "a"}, {K: "fi", N: 0}, {K: "fi", N: thr}, {K: "fill", N: 3},
+					{K: "r"}, {K: "fi", N: per}, {K: "a"}, {K: "a"}, {K: "b", N: count - 1}, {K: "fi", N: thr - 1}, {K: "r", N: 2},
+					{K: "a"}, {K: "fi", N: count}, {K: "g", N: 1}, {K: "a"}, {K: "fi", N: 5}, {K: "fill", N: -1}, {K: "a"}, {K: "r"}, {K: "a"}}})
+			}
+		}
+		hf := 0
+		if vstat.Thorough() || vstat.ReplayPath() != "" {
+			// the same state reached by the allocator's own history: every block arranged one by one
+			for _, g := range [][2]int{{4096, 513}, {1, 1<<21 + 1}} {
+				backend := "sparse"
+				if g[0] == 1 {
+					backend = "inmem"
+				}
+				do(Case{BS: g[0], Segs: g[1], Fit: true, Backend: backend, NoStamp: true, Ops: []Op{
+					{K: "fill", N: -1}, {K: "a"}, {K: "fi", N: 1 << 24}, {K: "a"}, {K: "a"}, {K: "r"}, {K: "fi", N: 3}, {K: "a"}}})
+				hf++
+			}
+		}
+		st.SetExhaustive("huge_grid", map[string]any{"block_sizes": sparseBS, "log2_thresholds": logs, "cases": n, "filled_call_by_call": hf})
+	}
+	t.Run("rapid", func(t *testing.T) {
+		rapid.Check(t, func(t *rapid.T) {
+			c := genHugeCase(t)
+			info, v := Run(c)
+			st.Report(t, "TestC17Huge", c, v)
 			record(c, info)
 		})
 	})
